@@ -79,6 +79,7 @@ def run(tier="quick", root="/repo", evidence_dir=None, quiet=False):
         "fixpoint_rounds": eng.rounds,
         "unresolved_calls": dict(eng.unresolved.most_common(20)),
         "defaulted_library_callees": dict(eng.defaulted_lib),
+        "library_model_audit": {k: eng.lib_seen[k] for k in sorted(eng.lib_seen)},
         "source_digest": repo.digest(),
     })
     return rep.finish(evidence_dir=evidence_dir, quiet=quiet)
